@@ -284,3 +284,59 @@ func installSyncMapModel(m *Machine) {
 		m.Hooks[n] = func(m *Machine, st *State, call *ssa.CallCommon, args []Val) ([]Val, bool) { return []Val{nil}, true }
 	}
 }
+
+// installSlicesModels: the functions of package slices whose source uses package unsafe (overlap tests) are modelled;
+// the rest of the package is interpreted from its source. Insert works in place when the capacity allows, as the
+// library does: the aliasing this creates is exactly what a caller may trip over.
+func installSlicesModels(m *Machine) {
+	m.Hooks["slices.Insert"] = func(m *Machine, st *State, call *ssa.CallCommon, args []Val) ([]Val, bool) {
+		idx, ok := args[1].(int64)
+		if !ok {
+			return nil, false
+		}
+		var s SliceV
+		switch x := args[0].(type) {
+		case SliceV:
+			s = x
+		case nilV:
+			s = SliceV{}
+		default:
+			return nil, false
+		}
+		if s.Abs {
+			return nil, false
+		}
+		adds, many, ok := m.sliceElems(st, args[2])
+		if !ok || many {
+			return nil, false
+		}
+		if idx < 0 || int(idx) > s.Len_ {
+			st.Status = stPanic
+			st.Msg = "slices.Insert: index out of range"
+			return nil, true
+		}
+		var cur []Val
+		for i := 0; i < s.Len_; i++ {
+			e, _ := st.load(Ptr{Obj: s.Obj, Path: pathAppend(s.Path, s.Lo+i)})
+			cur = append(cur, cloneVal(e))
+		}
+		res := append(append(append([]Val(nil), cur[:idx]...), adds...), cur[idx:]...)
+		n := len(res)
+		if n <= s.Cap && s.Cap > 0 {
+			for i, e := range res {
+				st.store(Ptr{Obj: s.Obj, Path: pathAppend(s.Path, s.Lo+i)}, cloneVal(e))
+			}
+			return []Val{SliceV{Obj: s.Obj, Path: s.Path, Lo: s.Lo, Len_: n, Cap: s.Cap}}, true
+		}
+		var et types.Type = types.Typ[types.Int]
+		if f := call.StaticCallee(); f != nil && len(f.TypeArgs()) >= 2 {
+			et = f.TypeArgs()[1]
+		}
+		arr := &ArrayV{}
+		for _, e := range res {
+			arr.E = append(arr.E, cloneVal(e))
+		}
+		id := st.alloc(types.NewArray(et, int64(n)), arr)
+		return []Val{SliceV{Obj: id, Len_: n, Cap: n}}, true
+	}
+}
